@@ -493,13 +493,15 @@ static inline void mzd_and_bits(mzd_t *M, rci_t const x, rci_t const y, int cons
                                 word values) {
   /* This is the best way, since this will drop out once we inverse the bits in values: */
   values >>= (m4ri_radix - n); /* Move the bits to the lowest columns */
+  /* n ones in the lowest columns: the entries outside the addressed range are left alone */
+  word const ones = m4ri_ffff >> (m4ri_radix - n);
 
   int const spot   = y % m4ri_radix;
   wi_t const block = y / m4ri_radix;
   word *row = mzd_row(M, x);
-  row[block] &= values << spot;
+  row[block] &= (values << spot) | ~(ones << spot);
   int const space = m4ri_radix - spot;
-  if (n > space) { row[block + 1] &= values >> space; }
+  if (n > space) { row[block + 1] &= (values >> space) | ~(ones >> space); }
 }
 
 /**
